@@ -1,6 +1,7 @@
 (* C13 — packed encoding is a lossless, spec-conformant, truncation-safe codec.
    Statements only; each is closed by [exact] of a lemma proved elsewhere. *)
-From CV Require Import Packed.Packed Packed.PackSpec Packed.PackedProofs Packed.ReaderProofs.
+From CV Require Import Packed.Packed Packed.PackSpec Packed.PackedProofs Packed.ReaderProofs
+  Packed.ReadCallProofs.
 Open Scope Z_scope.
 
 (* every word-aligned byte string: the packed form decodes back to it, both with the
@@ -26,6 +27,23 @@ Theorem C13_stream_agrees : forall orc inp, bytes_ok inp ->
   end.
 Proof. exact stream_agrees. Qed.
 Print Assumptions C13_stream_agrees.
+
+(* Reader.Read, the byte interface: every input, every sequence of request sizes (request j
+   asks for S (sizes j) >= 1 bytes), every fast-path oracle and every short-read oracle (the
+   two components of [orc], standing for bufio's Buffered()), any fuel above the explicit
+   bound: the concatenation of what the Read calls return and the final error are the
+   one-shot decoder's output and verdict *)
+Theorem C13_read_agrees : forall orc sizes inp, bytes_ok inp ->
+  forall fuel, (2304 * length inp + 1 <= fuel)%nat ->
+  match unpack inp with
+  | Some out => read_calls true fuel orc 0 b_init inp sizes 0 = Some (out, EOF)
+  | None => exists o, read_calls true fuel orc 0 b_init inp sizes 0 = Some (o, UnexpectedEOF)
+  end.
+Proof. exact read_calls_agree. Qed.
+Print Assumptions C13_read_agrees.
+(* non-vacuity: ReadCallProofs.read_calls_example (request sizes 1,3,8,9 cycling, both oracles
+   alternating, a stream with a zero run and a literal run), read_calls_example_truncated;
+   as-found code: read_prefix_refuted *)
 
 (* growth: at most 1024 output bytes per input byte (tag 0 + count 255 = 2 bytes -> 2048) *)
 Theorem C13_growth : forall src out, bytes_ok src ->
